@@ -425,6 +425,8 @@ def conforming(rng, nfuncs=None, depth=2, recursion=True):
             for a in range(1, fn.nargs):
                 out.append("add a0, a0, a%d" % a)
             out += ["sw a0, -12(s0)", "lw t0, -12(s0)", "add a0, a0, t0"]
+            if rng.random() < 0.4:
+                out.append("addi sp, s0, -%d" % fr)          # sp recomputed from the frame pointer (a non-memory read of fp)
             out += ["lw ra, -4(s0)", rng.choice(["lw s0, -8(s0)", "lw fp, -8(fp)"]), "addi sp, sp, %d" % fr, "ret"]
             lines += out
             continue
@@ -630,6 +632,20 @@ def sp_switch_prog(rng):
     return "\n".join(L) + "\n"
 
 
+def loop_slot_prog(rng):
+    """a stack slot set to a constant before a loop and overwritten inside it with a value the analysis does not know,
+    while the registers known at the loop head stay as they were: only the MEMORY facts change along the back edge"""
+    slot = rng.choice([0, 4, 8, 12])
+    k = rng.choice([10, 93, 1, 5])
+    unk = rng.choice(["a1", "a2", "t3"])
+    L = ["main:", "addi sp, sp, -16", "li t0, %d" % k, "sw t0, %d(sp)" % slot, "li t0, 0"]
+    L += ["loop:", "lw a7, %d(sp)" % slot]
+    L += rng.choice([[], ["ecall"], ["add a0, a0, a7"]])
+    L += ["sw %s, %d(sp)" % (unk, slot), rng.choice(["addi a0, a0, -1", "srli a0, a0, 1"]), "bnez a0, loop"]
+    L += ["lw a1, %d(sp)" % slot, "add a0, a0, a1", "addi sp, sp, 16", "li a7, 10", "ecall"]
+    return "\n".join(L) + "\n"
+
+
 def stack_fuzz(rng):
     """a function that hammers its frame with word/half/byte stores and loads, constants, a callee with its own
     frame, and ecalls - the value analysis has to keep (or give up) every slot claim correctly"""
@@ -723,6 +739,8 @@ def det_prog(rng):
             body += ["%s a0, r%d_%d" % (rng.choice(["beqz", "bnez", "bltz"]), i, r)]
             if rng.random() < 0.4:
                 body += ["li s3, 1", "add a0, a0, s3"]
+        if rng.random() < 0.25:
+            body += [rng.choice(["addi sp, sp, 8", "addi sp, sp, 4", "sw a0, 4(sp)"])]      # the stack pointer moved the wrong way / a store above it
         body += ["addi a0, a0, 1", "ret"]
         for r in range(nret - 1):
             body += ["r%d_%d:" % (i, r)]
@@ -880,6 +898,10 @@ def loop_fn_prog(rng):
     for i in range(nf):
         if rng.random() < 0.6:
             L += ["help%d:" % i, "li a7, %d" % rng.choice([4, 1, 11]), "ecall", "ret"]
+        if rng.random() < 0.25:     # a function that loops / tail-recurses by jumping to its OWN entry label
+            L += ["lf%d:" % i, "beqz a0, dn%d" % i, rng.choice(["addi a0, a0, -1", "srli a0, a0, 1", "addi a0, a0, -2"]),
+                  rng.choice(["j lf%d", "bnez a0, lf%d", "bgtz a0, lf%d"]) % i, "dn%d:" % i, "ret"]
+            continue
         L += ["lf%d:" % i, "mv t0, a0", "li a0, 0"]
         if rng.random() < 0.6:      # while loop
             L += ["lp%d:" % i, "beq t0, zero, dn%d" % i]
